@@ -373,7 +373,7 @@ def obim(ctx, fx):
             if h:
                 det.append("another thread's state read after the second barrier")
             # loop over all active threads
-            loops = [b for b in fn.blocks.values() if (b.get("term") or {}).get("cls") == "ForStmt" and
+            loops = [b for b in fn.blocks.values() if (b.get("term") or {}).get("cls") in ("ForStmt", "WhileStmt") and
                      "activeThreads" in (b["term"].get("text") or "")]
             if len(loops) != 1 or not re.match(r"^i < (galois::)?runtime::activeThreads$", loops[0]["term"].get("text") or ""):
                 det.append("remote loop is not `i < activeThreads`")
